@@ -1,26 +1,535 @@
-//! Reference model for FutureGroup / StreamGroup operation histories (C11, C12).
-use crate::gen::{Plan, Profile};
-use crate::leaf::Out;
-use crate::roots::Root;
-use crate::world::World;
+//! FutureGroup / StreamGroup operation histories (C11, C12) and their reference model.
+//!
+//! The model is a map `key index -> member`. Keys are opaque to the harness (the
+//! field is private); it keeps every `Key` object it was ever given and addresses
+//! them by the index printed by their `Debug` impl. A stale key legitimately
+//! addresses the current occupant of its slot, so the model is keyed by the key
+//! *value*, not by the member. Members that entered through `Extend` /
+//! `FromIterator` have an unknown key until a keyed yield or a `remove` reveals it.
+
+use crate::gen::{Plan, Profile, Shape};
+use crate::leaf::{harvest_out, KeyedItem, Out, SimFut, SimStream, Val};
+use crate::roots::{GroupOps, Root};
+use crate::world::{with, Ev, Family, GroupOp, NodeId, Res, World, NO_NODE, ROOT};
+use futures_concurrency::future::FutureGroup;
+use futures_concurrency::stream::StreamGroup;
+use futures_core::Stream;
+use std::collections::BTreeMap;
+use std::fmt::Debug;
+use std::pin::Pin;
+use std::task::{Context, Poll};
 
 #[derive(Default)]
 pub struct GroupModel {
     pub active: bool,
+    pub stream: bool,
+    pub keyed: bool,
+    /// known key -> live member
+    pub live: BTreeMap<usize, NodeId>,
+    /// live members whose key is not known (inserted through Extend / FromIterator)
+    pub unknown: Vec<NodeId>,
+    /// every key index the harness has seen
+    pub keys_seen: Vec<usize>,
+    pub live_at_begin: usize,
+    pub last_cap: usize,
+    pub ops_left: u32,
+    pub saw_none: bool,
 }
 
-pub fn on_root_poll_end(_w: &mut World, _out: &Out) {}
-
-pub fn plan(w: &mut World, p: &Profile, _prop: &str) -> Plan {
-    crate::gen::flat(w, p)
+impl GroupModel {
+    fn count(&self) -> usize {
+        self.live.len() + self.unknown.len()
+    }
+    fn is_live(&self, n: NodeId) -> bool {
+        self.unknown.contains(&n) || self.live.values().any(|&m| m == n)
+    }
+    fn forget(&mut self, n: NodeId) {
+        self.unknown.retain(|&m| m != n);
+        self.live.retain(|_, m| *m != n);
+    }
+    fn key_of(&self, n: NodeId) -> Option<usize> {
+        self.live.iter().find(|(_, &m)| m == n).map(|(k, _)| *k)
+    }
+    fn see(&mut self, k: usize) {
+        if !self.keys_seen.contains(&k) {
+            self.keys_seen.push(k);
+        }
+    }
 }
 
-pub fn build(_plan: &Plan) -> Box<dyn Root> {
-    unimplemented!()
+fn pre(w: &World, suffix: &'static str) -> &'static str {
+    match (w.model.group.stream, suffix) {
+        (false, "lr") => "c11.lr",
+        (false, "view") => "c11.view",
+        (false, "insert") => "c11.insert",
+        (false, "remove") => "c11.remove",
+        (false, "key") => "c11.key",
+        (true, "lr") => "c12.lr",
+        (true, "view") => "c12.view",
+        (true, "insert") => "c12.insert",
+        (true, "remove") => "c12.remove",
+        (true, "key") => "c12.key",
+        (true, "end_drop") => "c12.end_drop",
+        _ => "c11.other",
+    }
 }
 
-pub fn op_enabled(_plan: &Plan) -> bool {
-    false
+// ------------------------------------------------------------------ planning
+
+pub fn plan(w: &mut World, p: &Profile, prop: &str) -> Plan {
+    let stream = match prop {
+        "C11" => false,
+        "C12" => true,
+        _ => w.ch.draw("group.stream", 2) == 1,
+    };
+    let keyed = w.ch.draw("group.keyed", 2) == 1;
+    let cap = match w.ch.draw("group.cap", 4) {
+        0 => None,
+        1 => Some(0),
+        _ => Some(1 + w.ch.draw("group.capn", 5) as usize),
+    };
+    let ops = 2 + w.ch.draw("group.ops", 14);
+    let cancel_at = if p.allow_cancel && w.ch.draw("cancel", 5) == 4 { Some(w.ch.draw("cancel.at", 8)) } else { None };
+    Plan {
+        shape: Shape::Group { stream, keyed, cap, ops },
+        leaves: Vec::new(),
+        cancel_at,
+        max_yields: u32::MAX,
+        distinguished: None,
+    }
 }
 
-pub fn do_op(_plan: &mut Plan, _root: &mut dyn Root) {}
+// ------------------------------------------------------------------ roots
+
+pub fn key_index<K: Debug>(k: &K) -> usize {
+    // `Key(3)` -> 3 ; the field is private, Debug is the only way to read it
+    let s = format!("{k:?}");
+    s.chars().filter(|c| c.is_ascii_digit()).collect::<String>().parse().unwrap_or(usize::MAX)
+}
+
+macro_rules! group_root {
+    ($name:ident, $group:ty, $keyed:ty, $key:ty, $mk:expr, $is_stream:expr, $extend:expr) => {
+        pub enum $name {
+            Plain($group, Vec<$key>),
+            Keyed($keyed, Vec<$key>),
+        }
+        impl $name {
+            fn g(&mut self) -> (&mut $group, &mut Vec<$key>) {
+                match self {
+                    $name::Plain(g, k) => (g, k),
+                    $name::Keyed(g, k) => (&mut **g, k),
+                }
+            }
+            fn find(keys: &[$key], idx: usize) -> Option<$key> {
+                keys.iter().copied().find(|k| key_index(k) == idx)
+            }
+        }
+        impl Root for $name {
+            fn poll(&mut self, cx: &mut Context<'_>) -> Out {
+                match self {
+                    $name::Plain(g, _) => match Pin::new(g).poll_next(cx) {
+                        Poll::Pending => Out::pending(),
+                        Poll::Ready(None) => Out::none(),
+                        Poll::Ready(Some(v)) => harvest_out(v, Res::Some),
+                    },
+                    $name::Keyed(g, keys) => match Pin::new(g).poll_next(cx) {
+                        Poll::Pending => Out::pending(),
+                        Poll::Ready(None) => Out::none(),
+                        Poll::Ready(Some((k, v))) => {
+                            let idx = key_index(&k);
+                            if Self::find(keys, idx).is_none() {
+                                keys.push(k);
+                            }
+                            harvest_out(KeyedItem(idx, v), Res::Some)
+                        }
+                    },
+                }
+            }
+            fn group(&mut self) -> Option<&mut dyn GroupOps> {
+                Some(self)
+            }
+        }
+        impl GroupOps for $name {
+            fn insert(&mut self, node: NodeId) -> usize {
+                let (g, keys) = self.g();
+                let k = g.insert($mk(node));
+                let idx = key_index(&k);
+                if Self::find(keys, idx).is_none() {
+                    keys.push(k);
+                }
+                idx
+            }
+            fn remove(&mut self, key: usize) -> Option<bool> {
+                let (g, keys) = self.g();
+                let k = Self::find(keys, key)?;
+                Some(g.remove(k))
+            }
+            fn reserve(&mut self, n: usize) {
+                self.g().0.reserve(n)
+            }
+            fn extend(&mut self, nodes: &[NodeId]) {
+                let (g, _) = self.g();
+                let f: fn(&mut $group, &[NodeId]) = $extend;
+                f(g, nodes)
+            }
+            fn len(&self) -> usize {
+                match self {
+                    $name::Plain(g, _) => g.len(),
+                    $name::Keyed(g, _) => g.len(),
+                }
+            }
+            fn is_empty(&self) -> bool {
+                match self {
+                    $name::Plain(g, _) => g.is_empty(),
+                    $name::Keyed(g, _) => g.is_empty(),
+                }
+            }
+            fn capacity(&self) -> usize {
+                match self {
+                    $name::Plain(g, _) => g.capacity(),
+                    $name::Keyed(g, _) => g.capacity(),
+                }
+            }
+            fn contains_key(&mut self, key: usize) -> Option<bool> {
+                let (g, keys) = self.g();
+                let k = Self::find(keys, key)?;
+                Some(g.contains_key(k))
+            }
+        }
+    };
+}
+
+type FG = FutureGroup<SimFut<Val>>;
+type SG = StreamGroup<SimStream>;
+
+group_root!(
+    FutGroupRoot,
+    FG,
+    futures_concurrency::future::future_group::Keyed<SimFut<Val>>,
+    futures_concurrency::future::future_group::Key,
+    |n| SimFut::<Val>::new(n),
+    false,
+    |g, nodes| g.extend(nodes.iter().map(|&n| SimFut::<Val>::new(n)))
+);
+group_root!(
+    StreamGroupRoot,
+    SG,
+    futures_concurrency::stream::stream_group::Keyed<SimStream>,
+    futures_concurrency::stream::stream_group::Key,
+    |n| SimStream::new(n),
+    true,
+    |_g, _nodes| {}
+);
+
+pub fn build(plan: &Plan) -> Box<dyn Root> {
+    let Shape::Group { stream, keyed, cap, ops } = plan.shape else { unreachable!() };
+    with(|w| {
+        let root = w.new_node(NO_NODE, if stream { Family::StreamGroup } else { Family::FutGroup });
+        debug_assert_eq!(root, ROOT);
+        w.model.group = GroupModel { active: true, stream, keyed, ops_left: ops, ..GroupModel::default() };
+        w.emit(Ev::RootCreated { fam: w.node(ROOT).fam });
+    });
+    if stream {
+        let g = match cap {
+            None => SG::new(),
+            Some(c) => SG::with_capacity(c),
+        };
+        with(|w| w.model.group.last_cap = g.capacity());
+        if keyed {
+            Box::new(StreamGroupRoot::Keyed(g.keyed(), Vec::new()))
+        } else {
+            Box::new(StreamGroupRoot::Plain(g, Vec::new()))
+        }
+    } else {
+        let g = match cap {
+            None => FG::new(),
+            Some(c) => FG::with_capacity(c),
+        };
+        with(|w| w.model.group.last_cap = g.capacity());
+        if keyed {
+            Box::new(FutGroupRoot::Keyed(g.keyed(), Vec::new()))
+        } else {
+            Box::new(FutGroupRoot::Plain(g, Vec::new()))
+        }
+    }
+}
+
+// ------------------------------------------------------------------ operations
+
+pub fn op_enabled(plan: &Plan) -> bool {
+    matches!(plan.shape, Shape::Group { .. }) && with(|w| w.model.group.ops_left > 0)
+}
+
+fn new_member(w: &mut World) -> NodeId {
+    let p = crate::gen::profile(w.prop);
+    let stream = w.model.group.stream;
+    let lp = if stream { crate::gen::stream_script(w, &p, false) } else { crate::gen::fut_script(w, false, &p, false, 0) };
+    w.new_leaf(ROOT, lp.script, lp.term, stream, false)
+}
+
+enum Op {
+    Insert(NodeId),
+    Remove(usize),
+    Reserve(usize),
+    Extend(Vec<NodeId>),
+}
+
+pub fn do_op(_plan: &mut Plan, root: &mut dyn Root) {
+    let op = with(|w| {
+        w.model.group.ops_left -= 1;
+        w.stats.group_ops += 1;
+        let stream = w.model.group.stream;
+        let have_keys = !w.model.group.keys_seen.is_empty();
+        let kind = w.ch.draw("gop.kind", 12);
+        let op = match kind {
+            0..=5 => Op::Insert(new_member(w)),
+            6..=8 if have_keys => {
+                let n = w.model.group.keys_seen.len() as u32;
+                let k = w.model.group.keys_seen[w.ch.draw("gop.key", n) as usize];
+                Op::Remove(k)
+            }
+            9 => {
+                let n = if w.ch.draw("gop.big", 6) == 5 { 9 + w.ch.draw("gop.rn", 56) } else { w.ch.draw("gop.rn", 9) };
+                Op::Reserve(n as usize)
+            }
+            10 if !stream => {
+                let n = w.ch.draw("gop.en", 4);
+                Op::Extend((0..n).map(|_| new_member(w)).collect())
+            }
+            _ => Op::Insert(new_member(w)),
+        };
+        w.in_group_op = true;
+        op
+    });
+    let Some(g) = root.group() else { return };
+    match op {
+        Op::Insert(node) => {
+            let key = g.insert(node);
+            with(|w| {
+                w.emit(Ev::Group(GroupOp::Insert { node, key }));
+                w.node_mut(node).key = Some(key);
+                if w.model.group.keys_seen.contains(&key) {
+                    w.stats.f_slot_reuse += 1;
+                }
+                if let Some(&other) = w.model.group.live.get(&key) {
+                    let o = pre(w, "insert");
+                    w.flag(o, || format!("insert returned key {key}, which is still held by live member n{other} (keys of live members must be distinct)"));
+                }
+                // an unknown-key member may hold that slot only if the implementation handed out a duplicate;
+                // we cannot tell, the view checks (len) will
+                w.model.group.live.insert(key, node);
+                w.model.group.see(key);
+                if w.node(node).polls > 0 {
+                    let o = pre(w, "insert");
+                    w.flag(o, || format!("member n{node} was polled during insert"));
+                }
+            });
+        }
+        Op::Remove(key) => {
+            let ret = g.remove(key);
+            with(|w| {
+                let Some(ret) = ret else { return };
+                w.emit(Ev::Group(GroupOp::Remove { key, ret }));
+                let known = w.model.group.live.get(&key).copied();
+                match known {
+                    Some(m) => {
+                        if !ret {
+                            let o = pre(w, "remove");
+                            w.flag(o, || format!("remove(key {key}) returned false although member n{m} with that key is live"));
+                        } else {
+                            w.stats.p_remove_live += 1;
+                            w.model.group.live.remove(&key);
+                            w.node_mut(m).removed = true;
+                            if w.node(m).dropped != 1 {
+                                let d = w.node(m).dropped;
+                                let o = pre(w, "remove");
+                                w.flag(o, || format!("remove(key {key}) returned true but member n{m} was dropped {d} times by the time it returned (expected: dropped at removal)"));
+                            }
+                        }
+                    }
+                    None => {
+                        if ret {
+                            // may legitimately have hit a member whose key we do not know
+                            let cands: Vec<NodeId> = w.model.group.unknown.iter().copied().filter(|&m| w.node(m).dropped == 1).collect();
+                            if cands.len() == 1 {
+                                let m = cands[0];
+                                w.model.group.forget(m);
+                                w.node_mut(m).removed = true;
+                                w.node_mut(m).key = Some(key);
+                            } else {
+                                let o = pre(w, "remove");
+                                w.flag(o, || format!("remove(key {key}) returned true although no live member holds that key"));
+                            }
+                        }
+                    }
+                }
+            });
+        }
+        Op::Reserve(n) => {
+            g.reserve(n);
+            with(|w| w.emit(Ev::Group(GroupOp::Reserve { n })));
+        }
+        Op::Extend(nodes) => {
+            g.extend(&nodes);
+            with(|w| {
+                w.emit(Ev::Group(GroupOp::Extend { nodes: nodes.clone() }));
+                for &n in &nodes {
+                    w.model.group.unknown.push(n);
+                    if w.node(n).polls > 0 {
+                        let o = pre(w, "insert");
+                        w.flag(o, || format!("member n{n} was polled during extend"));
+                    }
+                }
+            });
+        }
+    }
+    with(|w| {
+        w.in_group_op = false;
+        w.group_op_since_poll = true;
+    });
+    observe(root);
+}
+
+/// Compare the observable set view with the model.
+pub fn observe(root: &mut dyn Root) {
+    let Some(g) = root.group() else { return };
+    let keys: Vec<usize> = with(|w| w.model.group.keys_seen.clone());
+    let (len, is_empty, cap) = (g.len(), g.is_empty(), g.capacity());
+    let contains: Vec<(usize, Option<bool>)> = keys.iter().map(|&k| (k, g.contains_key(k))).collect();
+    with(|w| {
+        w.emit(Ev::Group(GroupOp::Observe { len, is_empty, cap }));
+        let want = w.model.group.count();
+        let o = pre(w, "view");
+        if len != want {
+            w.flag(o, || format!("len() = {len} but {want} members were inserted and neither yielded/ended nor removed"));
+        }
+        if is_empty != (want == 0) {
+            w.flag(o, || format!("is_empty() = {is_empty} but the model has {want} live members"));
+        }
+        if cap < len {
+            w.flag(o, || format!("capacity() = {cap} dropped below len() = {len}"));
+        }
+        if cap > w.model.group.last_cap && want > 0 {
+            w.stats.f_growth += 1;
+        }
+        w.model.group.last_cap = cap;
+        let any_unknown = !w.model.group.unknown.is_empty();
+        for (k, got) in contains {
+            let Some(got) = got else { continue };
+            let known = w.model.group.live.contains_key(&k);
+            if known && !got {
+                w.flag(o, || format!("contains_key(key {k}) = false although a live member holds key {k}"));
+            }
+            if !known && got && !any_unknown {
+                w.flag(o, || format!("contains_key(key {k}) = true although no live member holds key {k}"));
+            }
+        }
+    });
+}
+
+// ------------------------------------------------------------------ poll frames
+
+pub fn on_root_poll_begin(w: &mut World) {
+    if w.model.group.active {
+        w.model.group.live_at_begin = w.model.group.count();
+    }
+}
+
+fn expect(w: &mut World, out: &Out, res: Res, vals: &[u32], why: &str) {
+    if out.res != res || (res == Res::Some && out.vals != vals) {
+        let got = crate::oracle::fmt_out(out);
+        let want = format!("{}{:?}", res.name(), vals);
+        let o = pre(w, "lr");
+        w.flag(o, || format!("group returned {got} but the model requires {want}: {why}"));
+    }
+}
+
+pub fn on_root_poll_end(w: &mut World, out: &Out) {
+    if !w.model.group.active {
+        return;
+    }
+    let stream = w.model.group.stream;
+    let frame = w.frame.clone();
+    let lr = pre(w, "lr");
+    // every polled member must be live in the model
+    for &(id, _, _) in &frame {
+        if !w.model.group.is_live(id) {
+            w.flag(lr, || format!("n{id} was polled although it is not a member of the group (yielded, ended or removed earlier)"));
+        }
+    }
+    let mut decider: Option<usize> = None;
+    let mut ended: Vec<NodeId> = Vec::new();
+    for (i, &(id, res, _)) in frame.iter().enumerate() {
+        match res {
+            Res::Ready | Res::Some | Res::Ok | Res::Err => {
+                decider = Some(i);
+                break;
+            }
+            Res::None => ended.push(id),
+            _ => {}
+        }
+    }
+    if ended.len() >= 2 {
+        w.stats.p_multi_end += 1;
+    }
+    for &m in &ended {
+        w.model.group.forget(m);
+        if w.node(m).dropped != 1 {
+            let d = w.node(m).dropped;
+            w.flag("c12.end_drop", || format!("member n{m} returned None in this poll but was dropped {d} times by the end of it (expected: dropped and forgotten in that poll)"));
+        }
+    }
+    match decider {
+        Some(i) => {
+            let (m, _res, val) = frame[i];
+            let v = val.unwrap_or(u32::MAX);
+            expect(w, out, Res::Some, &[v], "a member polled in this poll produced this value");
+            if frame.len() > i + 1 {
+                let later = frame[i + 1].0;
+                w.flag(lr, || format!("member n{later} was polled after n{m} produced a value in the same poll"));
+            }
+            if w.model.group.keyed && out.res == Res::Some {
+                let ko = pre(w, "key");
+                match (w.model.group.key_of(m), out.key) {
+                    (Some(k), Some(got)) if k != got => {
+                        w.flag(ko, || format!("item of member n{m} (inserted with key {k}) was yielded with key {got}"));
+                    }
+                    (None, Some(got)) => {
+                        // learn the key of an Extend/FromIterator member
+                        if let Some(&other) = w.model.group.live.get(&got) {
+                            w.flag(ko, || format!("item of member n{m} was yielded with key {got}, which belongs to live member n{other}"));
+                        } else if w.model.group.unknown.contains(&m) {
+                            w.model.group.unknown.retain(|&x| x != m);
+                            w.model.group.live.insert(got, m);
+                            w.model.group.see(got);
+                            w.node_mut(m).key = Some(got);
+                        }
+                    }
+                    (_, None) => w.flag(ko, || "keyed group yielded an item without a key".to_string()),
+                    _ => {}
+                }
+            }
+            if !stream {
+                w.model.group.forget(m);
+            }
+        }
+        None => {
+            if w.model.group.live_at_begin == 0 {
+                expect(w, out, Res::None, &[], "the group was empty when it was polled");
+            } else if stream && w.model.group.count() == 0 {
+                expect(w, out, Res::None, &[], "every member present at the start of this poll returned None during it");
+            } else {
+                expect(w, out, Res::Pending, &[], "members remain and none produced a value in this poll");
+            }
+        }
+    }
+    if out.res == Res::None {
+        if w.model.group.saw_none {
+            w.stats.p_refill += 0;
+        }
+        w.model.group.saw_none = true;
+    } else if out.res == Res::Some && w.model.group.saw_none {
+        w.stats.p_refill += 1;
+        w.model.group.saw_none = false;
+    }
+}
